@@ -347,6 +347,11 @@ func zvC11Step(r *vh.Run, u zvC11Uni, hist []zvC11Op) (string, []zvC11Op, bool) 
 				break
 			}
 		}
+		if ok && int(m.used) != len(m.ids) {
+			ok = false
+			r.Violation(vh.Sig("clause", "identifier_bookkeeping", "kind", "in_use_counter"), c,
+				"["+u.Session+" session] the allocator counts %d identifiers in use, %d are (the counter is what allocation compares with the size of the identifier space)", m.used, len(m.ids))
+		}
 		for id, n := range cnt {
 			if _, known := m.ids[id]; !known && ok {
 				ok = false
